@@ -24,7 +24,9 @@ std::string handle(const std::string& op, Args& a)
 	{
 		double x = a.dbl(), p1 = a.dbl(), p2 = a.dbl();
 		a.end();
-		return run([&](Out& o) {
+		// parameters the library rejects (fix d65f15f): empty domain x_min >= x_max, sigma <= 0
+		bool rejected = (op == "c07.unif_pdf" || op == "c07.unif_cdf") ? !(p1 < p2) : !(p2 > 0);
+		auto body = [&](Out& o) {
 			if(op == "c07.unif_pdf")
 				o << PDF_Uniform(x, p1, p2);
 			else if(op == "c07.unif_cdf")
@@ -33,16 +35,18 @@ std::string handle(const std::string& op, Args& a)
 				o << PDF_Gauss(x, p1, p2);
 			else
 				o << CDF_Gauss(x, p1, p2);
-		});
+		};
+		return rejected ? run_forked(body) : run(body);
 	}
 	if(op == "c07.gauss2d")	  // PDF_Gauss_2D and the two one-dimensional densities it should be the product of
 	{
 		double x = a.dbl(), y = a.dbl(), m1 = a.dbl(), m2 = a.dbl(), s1 = a.dbl(), s2 = a.dbl();
 		a.end();
-		return run([&](Out& o) {
+		auto body = [&](Out& o) {
 			std::pair<double, double> mean(m1, m2), sigma(s1, s2);
 			o << PDF_Gauss_2D(x, y, mean, sigma) << PDF_Gauss(x, m1, s1) << PDF_Gauss(y, m2, s2);
-		});
+		};
+		return (s1 > 0 && s2 > 0) ? run(body) : run_forked(body);
 	}
 	if(op == "c07.gauss_q")
 	{
@@ -122,13 +126,14 @@ std::string handle(const std::string& op, Args& a)
 		double b			= a.dbl();
 		a.end();
 		// Likelihood, the mass function at signal plus background, and both spellings of the default background
-		return run([&](Out& o) {
+		auto body = [&](Out& o) {
 			if(op == "c07.loglik")
 				o << Log_Likelihood_Poisson(s, n, b);
 			else
 				o << Likelihood_Poisson(s, n, b);
 			o << PMF_Poisson(s + b, n);
-		});
+		};
+		return (s >= 0 && b >= 0) ? run(body) : run_forked(body);   // negative expectations are rejected (fix d65f15f)
 	}
 	if(op == "c07.loglik_b" || op == "c07.lik_b")
 	{
